@@ -182,7 +182,8 @@ Record tables := mkTables {
   t_po : option t_post;
   t_ci : option t_cffinfo;   (* CFF FontInfo (CFF only) *)
   t_ol : outl;               (* decoded glyph data (widths as stored in the glyph data) *)
-  t_gdef : option N; t_gsub : option N; t_gpos : option N
+  t_gdef : option N; t_gsub : option N; t_gpos : option N;
+  t_kern : option N          (* identity of the GPOS table Read derives from a kern table *)
 }.
 
 (* ----------------------------------------------------------- M_write_derive *)
@@ -244,7 +245,7 @@ Definition M_write_tables (f : font) (hw : option (list Z)) (ws : list Z) : tabl
                        (version_string (f_version f)) (replace_copyright (f_copyright f))
                        (f_trademark f) (f_angle f) (f_upos f) (f_uthick f) fixed false (f_upm f))
      else None)
-    o (f_gdef f) (f_gsub f) (f_gpos f).
+    o (f_gdef f) (f_gsub f) (f_gpos f) None.
 
 Definition M_write_derive (f : font) : outcome tables :=
   hw <- write_widths (f_outl f) ;; Ok (M_write_tables f (fst hw) (snd hw)).
@@ -293,7 +294,7 @@ Definition M_codec (t : tables) : tables :=
   mkTables (t_cff t)
     (option_map codec_head (t_hd t)) (t_hm t) (t_maxp t)
     (option_map codec_os2 (t_o2 t)) (t_cm t) (t_nm t) (t_po t) (t_ci t)
-    (codec_outl (t_ol t)) (t_gdef t) (t_gsub t) (t_gpos t).
+    (codec_outl (t_ol t)) (t_gdef t) (t_gsub t) (t_gpos t) (t_kern t).
 
 (* -------------------------------------------------------------- M_read_merge *)
 
@@ -472,6 +473,10 @@ Definition mg_gsub (t : tables) (o : outl) : option N :=
          | None => None end
   end.
 
+(* read.go:482-523: a kern table is consulted only without a GPOS table *)
+Definition mg_gpos (t : tables) : option N :=
+  match t_gpos t with Some g => Some g | None => t_kern t end.
+
 Definition merge_fields (t : tables) (hm : option t_hmtx) (o : outl) : font :=
   let nt := mg_name t in
   let ci := t_ci t in
@@ -492,7 +497,7 @@ Definition merge_fields (t : tables) (hm : option t_hmtx) (o : outl) : font :=
     (fst (fst (mg_vmetrics t hm))) (snd (fst (mg_vmetrics t hm))) (snd (mg_vmetrics t hm))
     (mg_cap t o) (mg_xh t o) (mg_angle t hm)
     (fst (mg_underline t)) (snd (mg_underline t))
-    o (t_cm t) (t_gdef t) (mg_gsub t o) (t_gpos t).
+    o (t_cm t) (t_gdef t) (mg_gsub t o) (mg_gpos t).
 
 Definition M_read_merge (t : tables) : outcome font :=
   c <- merge_counts t ;;
